@@ -35,28 +35,38 @@ def main(argv):
     except Exception:
         pass
     rep = Report(prop, level)
+    # The guards run in SEPARATE PROCESSES and concurrently with the check: they create thousands of z3 terms, and the order in
+    # which z3 prints declarations (and with it the running time of the string queries in cvc5: 7 s vs 75 s was observed)
+    # depends on what the process has allocated before.  The verification conditions are thus generated in a pristine process.
+    import subprocess
+    import json as _json
+    penv = dict(os.environ, PYTHONPATH=env.VERIF + os.pathsep + os.environ.get('PYTHONPATH', ''))
+    guards = {}
     try:
-        # guard of the guard: the interpreter must agree with CPython on the concrete self-test scripts (2-3 s)
-        from .pyvc import selftest
-        for msg in selftest.main(env.REPO, verbose=False):
-            rep.error(msg)
-        rep.extra['encoder_selftest'] = {'scripts': len(selftest.SCRIPTS), 'frame_rule_cases': len(selftest.FRAME_CASES),
-                                         'symbolic_differential_cases': len(selftest.SYM_CASES) + len(selftest.LABEL_CASES),
-                                         'result': 'agree' if not rep.errors else 'DISAGREE'}
+        guards['selftest'] = subprocess.Popen([sys.executable, '-m', 'vlib.pyvc.selftest', '--json'], cwd=env.VERIF, env=penv, stdout=subprocess.PIPE, stderr=subprocess.PIPE, text=True)
+        if prop in HEAP_PROPS:
+            guards['conformance'] = subprocess.Popen([sys.executable, '-m', 'vlib.pyvc.conformance_cases', '--json'] + (['--quick'] if env.TIER != 'thorough' else []),
+                                                     cwd=env.VERIF, env=penv, stdout=subprocess.PIPE, stderr=subprocess.PIPE, text=True)
     except Exception:
-        rep.error('encoder self-test crashed: ' + traceback.format_exc()[-1500:])
-    if prop in HEAP_PROPS:
-        # guard of the abstract circuit heap: the contracts of a few mutators, run on a CONCRETE small circuit, must describe
-        # exactly what CPython does (pyvc/conformance.py); quick: 2 cases, thorough: 12
-        try:
-            from .pyvc import conformance_cases
-            n, probs = conformance_cases.run(env.TIER != 'thorough')
-            for msg in probs:
-                rep.error(msg)
-            rep.extra['heap_conformance'] = {'cases': n, 'result': 'conforms' if not probs else 'DEVIATES',
-                                             'over_approximations': list(getattr(conformance_cases.run, 'imprecise', []))[:10]}
-        except Exception:
-            rep.error('heap conformance test crashed: ' + traceback.format_exc()[-1500:])
+        rep.error('could not start the guard processes: ' + traceback.format_exc()[-800:])
+
+    def collect_guards():
+        for name, proc in guards.items():
+            try:
+                out, err = proc.communicate(timeout=1800)
+                line = [x for x in out.splitlines() if x.startswith('JSON ')]
+                if not line:
+                    rep.error(f'{name} guard gave no result (exit {proc.returncode}): ' + (out + err)[-800:])
+                    continue
+                res = _json.loads(line[-1][5:])
+                for msg in res.get('problems', []):
+                    rep.error(msg)
+                if name == 'selftest':
+                    rep.extra['encoder_selftest'] = dict(res.get('info', {}), result='agree' if not res.get('problems') else 'DISAGREE')
+                else:
+                    rep.extra['heap_conformance'] = dict(res.get('info', {}), result='conforms' if not res.get('problems') else 'DEVIATES')
+            except Exception:
+                rep.error(f'{name} guard crashed: ' + traceback.format_exc()[-800:])
     try:
         import subprocess
         r = subprocess.run([os.path.join(env.VERIF, 'bin', 'lemmas')], capture_output=True, text=True, timeout=120)
@@ -71,6 +81,7 @@ def main(argv):
         mod.run(rep)
     except Exception:
         rep.error('check crashed: ' + traceback.format_exc()[-3000:])
+    collect_guards()
     return rep.finish(f'bin/check {prop} --tier {env.TIER}')
 
 
